@@ -419,6 +419,9 @@ class Model:
             raise ValueError('%s must start with an a' % name)
         if con == 'nonempty' and not str(value):
             raise ValueError('%s must not be empty' % name)
+        if con == 'upper' and (str(value) != str(value).upper() or any(
+                ord(ch) > 127 for ch in str(value))):
+            raise ValueError('%s must be ASCII upper case' % name)
         ir = c.get('init_raises')
         if ir is not None and ir[0] == 'always':
             raise EXC_TYPES[ir[1]]('constructor of %s refuses' % name)
